@@ -170,6 +170,7 @@ func (b *Backend) Client(name string) *Client { return &Client{b: b, name: name}
 // Revoke makes this and every later operation of the client fail without effect: the model of a
 // process stop at an operation boundary.
 func (c *Client) Revoke()           { c.revoked.Store(true) }
+func (c *Client) Name() string      { return c.name }
 func (c *Client) Revoked() bool     { return c.revoked.Load() }
 func (c *Client) Backend() *Backend { return c.b }
 
